@@ -34,6 +34,16 @@ def quo (a b : Int) : Option Int := if b = 0 then none else some (Int.tdiv a b)
 /-- `a % b`, same -/
 def rem (a b : Int) : Option Int := if b = 0 then none else some (Int.tmod a b)
 
+/-- the overflow-checked copies: an exact result that does not fit in 64 bits is `none` -/
+def chk64 (x : Int) : Option Int :=
+  if -9223372036854775808 ≤ x ∧ x ≤ 9223372036854775807 then some x else none
+
+theorem chk64_eq {x : Int} (h0 : -9223372036854775808 ≤ x) (h1 : x ≤ 9223372036854775807) : chk64 x = some x := by
+  simp [chk64, h0, h1]
+
+/-- checked `a / b`: division by zero panics, MinInt / -1 does not fit -/
+def quo64 (a b : Int) : Option Int := if b = 0 then none else chk64 (Int.tdiv a b)
+
 /-- `for cond { body }` over the tuple of variables the body assigns. Running out of fuel is reported as a
     panic, so a translated function that returns `some` did terminate within the fuel. -/
 def whileFuel {σ : Type} (fuel : Nat) (c : σ → Option Bool) (b : σ → Option σ) (s : σ) : Option σ :=
